@@ -130,7 +130,12 @@ Verdict(r) ==
                   (IF r.out.exc = "MemoryValueNotWriteable" /\ Len(r.ev) = 0 THEN Pass
                    ELSE Fail("read-only-value-not-refused-before-sending", Len(r.ev)))
               ELSE IF r.out.exc = "none" THEN
-                  (IF r.ignore = 1 THEN Pass
+                  (IF r.ignore = 1 THEN
+                       \* feedback ignored: failures need not be noticed, but a healthy unit holds the data and the bank is
+                       \* locked again in any case
+                       (IF lockable /\ fin[3] = 85 THEN Fail("left-unlocked", 0)
+                        ELSE IF ~faulty /\ r.legal = 1 /\ ~stored THEN Fail("data-not-stored-although-unit-healthy", 0)
+                        ELSE Pass)
                    ELSE IF ~stored THEN Fail("failed-write-reported-as-success", 0)
                    ELSE IF faulty THEN Fail("fault-not-reported", 0)
                    ELSE IF lockable /\ fin[3] = 85 THEN Fail("left-unlocked", 0)
